@@ -1193,6 +1193,43 @@ example : ∀ x ∈ [QOp.gate 0 (#v[#v[1, 0], #v[1/3, 1/2]] : Mat Rat 2 2), .gat
 
 end chainstate
 
+/-! ### the executed `Povm∘State` and `MProcess∘State` branches -/
+section execbranches
+variable {n : Nat} [NeZero n]
+
+/-- C06 "a POVM on a state gives the Born-rule distribution", on the **executed** `Povm∘State` branch (`povmState` =
+Born weights → `truncate_and_normalize` → `MultinomialDistribution`): for an identity-sum POVM, a unit-trace state and
+no Born weight below `Settings.atol`, the dispatch hands exactly the raw Born weights `⟪Π_x, ρ⟫` (which sum to 1) to
+the distribution constructor, with the flat shape `(m,)`. -/
+theorem povm_state_generic (c : Cfg) (vecs : List (Vec Rat n)) (rho : Vec Rat n)
+    (hP : IdentitySum c.sd vecs) (hr : TraceOne c.sd rho) (hno : ∀ p ∈ bornRaw vecs rho, ¬ p < c.atol) :
+    povmState c vecs rho = liftDist (QM.C16.ctor (bornRaw vecs rho) [vecs.length] eps8) := by
+  unfold povmState
+  rw [truncNorm_generic c.atol _ hno (born_sum_one c.sd vecs rho hP hr)]
+  simp [bornRaw]
+
+/-- C06 "a measurement process on a state gives each outcome's probability together with the normalised
+post-measurement state", on the **executed** `MProcess∘State` branch (`mpState`), no-truncation regime: the dispatch
+hands the probabilities `sd·(HS_x ρ)₀` to the distribution constructor with the process's shape and, when that
+succeeds with as many entries as outcome maps, returns the ensemble of the post states `HS_x ρ / p_x` with the
+process's `eps_zero`. Partial: outcomes with `p_x ≤ eps_zero` excluded (see `mprocess_state_exact`). -/
+theorem mpState_generic_partial (c : Cfg) (sys : Nat) (shape : List Nat) (eps : Rat) (hss : List (Mat Rat n n))
+    (rho : Vec Rat n) (heps : 0 ≤ eps) (hno : ∀ hs ∈ hss, ¬ 1 * (c.sd * (hs.mulVec rho).get 0) ≤ eps) :
+    mpState c sys shape eps hss rho =
+      (liftDist (QM.C16.ctor (hss.map fun hs => 1 * (c.sd * (hs.mulVec rho).get 0)) shape eps8)).bind fun d =>
+        if (hss.map fun hs => vdiv (hs.mulVec rho) (c.sd * (hs.mulVec rho).get 0)).length ≠ d.ps.length
+        then .error .size
+        else .ok (.ensemble sys (hss.map fun hs => vdiv (hs.mulVec rho) (c.sd * (hs.mulVec rho).get 0)) d eps) := by
+  unfold mpState
+  rw [mprocess_state_partial c.sd eps hss rho 1 heps hno]
+  rfl
+
+/-- non-vacuity of `povm_state_generic`: identity-sum POVM, unit-trace state, Born weights 11/15 and 4/15 ≥ atol -/
+example : ∀ p ∈ bornRaw [(#v[1, 1/3] : Vec Rat 2), #v[1, -1/3]] (#v[1/2, 7/10] : Vec Rat 2), ¬ p < (1 / 10000000000000 : Rat) := by
+  decide +kernel
+
+end execbranches
+
 /-! ### Born probabilities are non-negative -/
 section born
 open scoped ComplexOrder
